@@ -7,7 +7,7 @@ import random
 import subprocess
 import sys
 
-sys.path.insert(0, '/repo')
+sys.path.insert(0, os.environ.get('VERIF_REPO', '/repo'))
 sys.path.insert(0, os.path.dirname(os.path.dirname(os.path.abspath(__file__))))
 sys.setrecursionlimit(10000)
 import logging  # noqa: E402
